@@ -49,6 +49,11 @@ C_Features == {"directives", "tags", "roots", "describe", "scalars", "deprecate"
 D_Slots == {[name |-> "Obj", kind |-> "OBJECT"], [name |-> "Node", kind |-> "INTERFACE"],
             [name |-> "Entity", kind |-> "INTERFACE"], [name |-> "Named", kind |-> "INTERFACE"]}
 D_Features == {"implements"}
+\* ---- E: several deprecated siblings (enum values, fields, input fields) with different / absent reasons
+E_Slots == {[name |-> "Color", kind |-> "ENUM"], [name |-> "In", kind |-> "INPUT_OBJECT"]}
+E_Features == {"fields", "inputs", "enums", "deprecate"}
+F_Features == {"args", "deprecate"}   \* F: two arguments of one field, both deprecated
+W_none == {<<>>}
 \* ---- simulation: everything
 Sim_Slots == {[name |-> "Obj", kind |-> "OBJECT"], [name |-> "Other", kind |-> "OBJECT"], [name |-> "Mutation", kind |-> "OBJECT"],
               [name |-> "Query", kind |-> "OBJECT"],
